@@ -9,7 +9,7 @@ open Demes.Proofs.RV (bind_ok pure_ok)
 
 /-! ## all options of the group -/
 
-theorem events_groupInv {N0 T' : Q} {n0 : Nat} {s0 : BState} {allOps : List MOp} (hns : NSAT allOps) :
+theorem events_groupInv' {N0 T' : Q} {n0 : Nat} {s0 : BState} {allOps : List MOp} (hns : NJT allOps) :
     ∀ (evs : List (Event Num)) {T : Q} {s s' : BState} {g g' : GState} {σ σ' : St}
       {L L' : List (Nat × Row)} {done : List MOp} {pend : Option (Nat × Q)},
     SizeSim T s σ → T ≤ T' → (∀ e ∈ evs, HasCmd e) → (∀ e ∈ evs, 4 * N0 * (cmdOfD e).t = T') →
@@ -36,11 +36,24 @@ theorem events_groupInv {N0 T' : Q} {n0 : Nat} {s0 : BState} {allOps : List MOp}
     have he := hall e (List.mem_cons_self ..)
     have ht := htime e (List.mem_cons_self ..)
     have hsim' := stepEvent_sizeSim hsim hT he ht.symm h1 hs1
-    obtain ⟨done1, pend1, hinv1⟩ := stepEvent_groupInv hsim he h1 hs1 hns (hfr e (List.mem_cons_self ..)) hinv
+    obtain ⟨done1, pend1, hinv1⟩ := stepEvent_groupInv' hsim he h1 hs1 hns (hfr e (List.mem_cons_self ..)) hinv
     obtain ⟨hrel1, hlen1⟩ := stepEvent_lm evs hsim he h1 hs1 hrel hlen
     exact ih hsim' (Rat.le_refl) (fun x hx => hall x (List.mem_cons_of_mem _ hx))
       (fun x hx => htime x (List.mem_cons_of_mem _ hx)) (fun x hx => hfr x (List.mem_cons_of_mem _ hx))
       hinv1 hrel1 hlen1 hm hs
+
+theorem events_groupInv {N0 T' : Q} {n0 : Nat} {s0 : BState} {allOps : List MOp} (hns : NSAT allOps) :
+    ∀ (evs : List (Event Num)) {T : Q} {s s' : BState} {g g' : GState} {σ σ' : St}
+      {L L' : List (Nat × Row)} {done : List MOp} {pend : Option (Nat × Q)},
+    SizeSim T s σ → T ≤ T' → (∀ e ∈ evs, HasCmd e) → (∀ e ∈ evs, 4 * N0 * (cmdOfD e).t = T') →
+    (∀ e ∈ evs, FracOK (cmdOfD e)) →
+    GroupInv T' n0 s0 allOps s g L done pend (evs.map cmdOfD) →
+    LmRel g.lm L → (∀ row ∈ g.lm, row.length = s.numDemes + (evs.filter isSplit).length) →
+    evs.foldlM (stepEvent N0 T') (s, g) = .ok (s', g') →
+    (evs.map cmdOfD).foldlM (Spec.MsSem.step N0) (σ, L) = .ok (σ', L') →
+    ∃ done' pend', SizeSim T' s' σ' ∧ GroupInv T' n0 s0 allOps s' g' L' done' pend' []
+      ∧ LmRel g'.lm L' ∧ ∀ row ∈ g'.lm, row.length = s'.numDemes :=
+  events_groupInv' (njt_of_nsat hns)
 
 /-- the keys of `initL`: the numbers of the populations alive -/
 theorem initL_mem {σ : St} {ir : Nat × Row} (h : ir ∈ initL σ) :
